@@ -832,7 +832,7 @@ pub fn generate(run_seed: u64, mode: &'static str, recvs: &'static std::collecti
     let multiline = g.rng.pct(40);
     let attr = Attr::Meta(top);
     let mut env = choose_faults(&mut g, &mut frng, mode);
-    let mut doc = InputDoc { attrs: vec![attr], ident: "T".into(), generics: vec![], body: Body::Struct(FieldsDoc::Unit), multiline };
+    let mut doc = InputDoc { attrs: vec![attr], ident: "T".into(), generics: vec![], body: Body::Struct(FieldsDoc::Unit), multiline, where_clause: String::new() };
     let mut rendered = doc.clone();
     let _ = render(&mut rendered);
     resolve_remote(&mut env, &rendered);
@@ -1008,7 +1008,17 @@ impl<'r> Gen<'r> {
                     "const" => format!("N{}", i),
                     _ => format!("T{}", i),
                 };
-                TParamDoc { id, r_name: ZERO, attrs, name, bounds: if kind == "type" && self.rng.pct(30) { "Clone".into() } else { String::new() }, kind: kind.to_string() }
+                const TYPE_TAILS: [&str; 12] = [
+                    "Clone", "Clone", "Clone + Send", "?Sized", "'static + Copy", "Iterator<Item = u8>", "for<'x> Fn(&'x u8) -> u8", "= u8", "Clone = Vec<u8>", "?Sized + std::fmt::Debug",
+                    "= [u8; 4]", "crate::Tr<{ 1 + 1 }>",
+                ];
+                let bounds = match kind {
+                    "type" if self.rng.pct(30) => self.rng.pick(&TYPE_TAILS).to_string(),
+                    "lifetime" if self.rng.pct(20) => "'static".to_string(),
+                    "const" if self.rng.pct(20) => self.rng.pick(&["= 3", "= { 1 + 2 }"]).to_string(),
+                    _ => String::new(),
+                };
+                TParamDoc { id, r_name: ZERO, attrs, name, bounds, kind: kind.to_string() }
             })
             .collect()
     }
@@ -1056,7 +1066,7 @@ pub fn generate_elem(run_seed: u64, mode: &'static str, recvs: &'static std::col
     };
     let mut g = Gen { rng: &mut grng, cfg, next_id: 0, probe_items: vec![], all_items: vec![], sites: vec![], none_sites: vec![], recvs };
     let multiline = g.rng.pct(40);
-    let mut doc = InputDoc { attrs: vec![], ident: "Elem".into(), generics: vec![], body: Body::Struct(FieldsDoc::Unit), multiline };
+    let mut doc = InputDoc { attrs: vec![], ident: "Elem".into(), generics: vec![], body: Body::Struct(FieldsDoc::Unit), multiline, where_clause: String::new() };
     let entry;
     match d.kind {
         ElemKind::DeriveInput => {
@@ -1066,6 +1076,9 @@ pub fn generate_elem(run_seed: u64, mode: &'static str, recvs: &'static std::col
                 _ => None,
             };
             doc.generics = g.generics_doc(tr);
+            if g.rng.pct(15) {
+                doc.where_clause = g.rng.pick(&["where u8: Copy", "where T0: Clone", "where 'l0: 'static, T1: ?Sized", "where for<'x> T0: Fn(&'x u8)", "where", "where T0: Iterator, T0::Item: Copy,"]).to_string();
+            }
             doc.body = g.body_doc(&d);
             entry = Entry::DeriveInput;
         }
